@@ -39,8 +39,8 @@ Toks(gg, b, p, acc) ==
   IF q = Len(b) THEN <<TRUE, acc>>
   ELSE LET lx == LexChars(gg, b, q) IN IF lx[1] = -1 THEN <<FALSE, acc>> ELSE Toks(gg, b, q + lx[2], Append(acc, lx[1]))
 
-LangOf == [gg \in 1..NG |-> Lang(Gs[gg], L)[Gs[gg].root]]
-PrefOf == [gg \in 1..NG |-> PrefLang(Gs[gg], L)[Gs[gg].root]]
+LangOf == TLCEval([gg \in 1..NG |-> Lang(Gs[gg], L)[Gs[gg].root]])
+PrefOf == TLCEval([gg \in 1..NG |-> PrefLang(Gs[gg], L)[Gs[gg].root]])
 NoErrRules(gg) == \A i \in 1..Len(Gs[gg].rules) : \A k \in 1..Len(Gs[gg].rules[i].r) : Gs[gg].rules[i].r[k] # Err(Gs[gg])
 ConflictFree(gg) == A[gg].conflicts = {}
 
@@ -79,7 +79,7 @@ ResultIsDerivationTree ==
 FirstBad(gg, tk, eofToo) ==
   LET bad == {k \in 1..(Len(tk) + 1) : IF k <= Len(tk) THEN SubSeq(tk, 1, k) \notin PrefOf[gg] ELSE eofToo /\ tk \notin LangOf[gg]}
   IN IF bad = {} THEN 0 ELSE CHOOSE k \in bad : \A k2 \in bad : k <= k2
-Reduced == [gg \in 1..NG |-> ReducedReachable(Gs[gg])]
+Reduced == TLCEval([gg \in 1..NG |-> ReducedReachable(Gs[gg])])
 ReportedOnceAtTheRightPlace ==
   (Done /\ ConflictFree(g) /\ NoErrRules(g) /\ Reduced[g]) =>
      LET tk == Toks(g, inp, 0, <<>>)              \* tk[2] = the tokens before the first byte no term matches (if any)
